@@ -228,6 +228,12 @@ func genC02(tier, out string, sum *Summary) {
 			sum.direct("arg-fault", af.expr, af.doc, "an argument fails with "+want+"; the call must fail the same way, got "+describe(o))
 		}
 	}
+	// one value from every source into every consumer (families.go)
+	runValueSources(sum, "source-independence", 9, func(expr string, doc any, o Obs) {
+		id++
+		sh.Add(fmt.Sprintf("BC %d %s %s %s %s", id, hx(expr), coqValue(doc), hasEnumText(expr), coqObs(o)))
+		sum.Index[strconv.Itoa(id)] = map[string]any{"expr": expr, "doc": toJSON(doc), "observed": obsJSON(o)}
+	})
 	// to_number on text that is, or nearly is, a JSON number: a number exactly for the JSON number grammar
 	// (no leading zeros, no bare exponent, no surrounding blanks, none of the words other parsers accept)
 	for _, x := range numberish(tier) {
